@@ -28,6 +28,7 @@
 //     through ExtractedPair::Remove(pairRemover), re-inserted into another map that has / has not the key (Insert(ExtractedPair&&),
 //     Add(pos / iter, ExtractedPair&&)) - each under the same fault sweeps: a failed or refused re-insertion leaves the pair, unchanged,
 //     in the handle; a successful one leaves it, unchanged, in the map.
+//   * Insert(begin, end) from another map's iterators (MapPairConverter for {key, value} references): copies, source unchanged.
 //   * MergeTo / MergeFrom between maps of the same and of the other family under the same sweeps (C10 basic): every pair lives in
 //     exactly one of source, destination with its own value; common keys stay in the source; no element object lost or duplicated.
 //   * after destruction (C03): no memory-manager block outstanding, no bad deallocation, zero live element objects.
@@ -413,6 +414,39 @@ static void mergeSweep(Ctx& c, const std::string& name, unsigned pattern, bool v
 	}
 }
 
+// ------------------------------------------------------------------ sweep 4: Insert(begin, end) from the iterators of another map
+// (*iter is a MapReference {key, value}: MapPairConverter::Convert(const Pair&) - copies, the source must stay as it was)
+template<typename M>
+static void rangeInsertSweep(Ctx& c, const std::string& name)
+{
+	typedef typename M::Key K; typedef typename M::Value V;
+	for (int m = -1; m < M_COUNT; ++m) for (long k = 0; k < 300; ++k) {
+		bool threw = false, fired = false;
+		std::string what = fmt("%s dst.Insert(src.GetBegin(), src.GetEnd()), %s failure #%ld", name.c_str(), m < 0 ? "no" : modeName[m], k);
+		{
+			std::unique_ptr<M> bs(new M()), bd(new M()); M& src = *bs; M& dst = *bd; Ref refS, refD;
+			for (unsigned i = 0; i < 9; ++i) { uint32_t ks = 10 + 2 * i; K key(ks); V val(valOf(ks)); src.Insert(key, val); refS[ks] = valOf(ks); }
+			for (unsigned i = 0; i < 4; ++i) { uint32_t kd = 10 + 3 * i; K key(kd); V val(valOf(kd) + 1); dst.Insert(key, val); refD[kd] = valOf(kd) + 1; }	// 10 and 16 are common
+			long live0 = ec().live; size_t added = 0;
+			if (m >= 0) arm(m, k);
+			threw = guarded([&] { added = dst.Insert(src.GetBegin(), src.GetEnd()); });
+			if (m >= 0) fired = disarm(m);
+			c.stats.evaluations++;
+			if (threw) { c.stats.count(std::string("rangeinsert.threw.") + modeName[m]); c.stats.nontrivial(what); }
+			Ref expD = refD; size_t expAdded = 0;
+			std::set<uint32_t> dstKeys; for (auto r : dst) dstKeys.insert(idOf(r.key));
+			for (auto& kv : refS) if (!refD.count(kv.first)) { if (dstKeys.count(kv.first)) { expD[kv.first] = kv.second; ++expAdded; } else if (!threw) c.fail("C10 insert range: %s: pair %u was not inserted although the destination had no such key", what.c_str(), kv.first); }
+			std::string ds = mapVsRef(src, refS), dd = mapVsRef(dst, expD);
+			if (!ds.empty()) c.fail("C10 insert range: %s: the source map changed: %s", what.c_str(), ds.c_str());
+			if (!dd.empty()) c.fail("C10 insert range: %s: destination: %s (expected {%s})", what.c_str(), dd.c_str(), showRef(expD).c_str());
+			if (!threw && added != expAdded) c.fail("C01 insert range: %s: returned %zu, %zu pairs are new", what.c_str(), added, expAdded);
+			if (ec().live != live0 + 2 * (long)expAdded) c.fail("C03 elements: %s: %ld key/value objects alive, expected %ld (%zu pairs copied)", what.c_str(), ec().live, live0 + 2 * (long)expAdded, expAdded);
+		}
+		afterScope(c, what);
+		if (m < 0 || (!threw && !fired)) break;
+	}
+}
+
 // ------------------------------------------------------------------ HashMap API spellings that no other harness instantiates
 template<typename M>
 static void hashApi(Ctx& c, const std::string& name)
@@ -565,6 +599,7 @@ static void mapSweeps(Ctx& c, const std::string& name, bool exc5)
 	for (unsigned t : { 0u, 4u, 8u }) handleSweep<M>(c, name, 9, 10 + 2 * t);
 	for (unsigned p = 0; p < 3; ++p) { mergeSweep<M, M>(c, name + " -> same type", p, false, exc5); }
 	mergeSweep<M, M>(c, name + " -> same type", 1, true, exc5);
+	rangeInsertSweep<M>(c, name);
 }
 
 template<int kc, int vc>
